@@ -14,6 +14,7 @@ func runC06(c *Ctx) {
 	R := c.R
 	R.Rule("C06.R1", "escaped provenance: in the Text arm every write is token.String() of the current token (html.EscapeString of the decoded text) unless it happens under allowUnsafe; no other value is ever written for a text token")
 	R.Rule("C06.R2", "exactly-once: along every path through one iteration of the token loop at most one payload (token.String()/raw) and at most one space is written and never both; a Text iteration that writes nothing is inside skipped content or inside script/style without allowUnsafe; a space is written only under addSpaces; with addSpaces on, outside skipped content, for a tag that is neither script/style nor a skip-set element, exactly one of {tag, space} is written (one space per removed tag, none per kept tag); Comment and Doctype iterations never write a space")
+	R.Rule("C06.R4", "the tokenizer runs in its default configuration: the only methods invoked on the value returned by html.NewTokenizer are Next, Token, Err and Raw (AllowCDATA, SetMaxBuf, NextIsNotRawText … change which input bytes are delivered as text, so that the text of the output is no longer the text of the input)")
 	R.Rule("C06.R3", "nothing is written outside the token-type arms (between Tokenizer.Next and the switch, or after the loop)")
 	R.Assume(TrustGo, TrustTokenizer, TrustTokenString, "equality of the text an HTML tokenizer reads from input and output (decode/escape round trip, CR/LF/NUL normalisation, invalid UTF-8) is a property of x/net/html and is NOT decided")
 	sc := newSC(c, "C06.R1")
@@ -56,6 +57,7 @@ func runC06(c *Ctx) {
 	}
 	R.Role("C06.R1", "writes in the Text arm", nText, 1)
 	if nw := len(sc.S.Writes); nw > 0 {
+		c06TokenizerConfig(sc)
 		R.OK("C06.R3", "all-writes-in-arms", fmt.Sprintf("(*Policy).sanitize: %d destination writes, each inside exactly one token-type arm", nw), c.P.Pos(sc.S.Fn.Pos()), "checked per write")
 	}
 
@@ -165,4 +167,45 @@ func runC06(c *Ctx) {
 		}
 	}
 	R.Check(nd == 0, "C06.R2", "doctype:no-write", "(*Policy).sanitize arm Doctype", "", "writes nothing", "the Doctype arm writes")
+}
+
+// c06TokenizerConfig (C06.R4): only Next/Token/Err/Raw are called on the tokenizer.
+func c06TokenizerConfig(sc *SC) {
+	R := sc.c.R
+	tk := sc.S.Tokenizer
+	if tk == nil || tk.Referrers() == nil {
+		R.Unknown("C06.R4", "tokenizer", "(*Policy).sanitize: the tokenizer", "", "tokenizer value not recognised")
+		return
+	}
+	allowed := map[string]bool{"Next": true, "Token": true, "Err": true, "Raw": true}
+	n := 0
+	seen := map[ssa.Value]bool{}
+	var visit func(v ssa.Value)
+	visit = func(v ssa.Value) {
+		if seen[v] || v.Referrers() == nil {
+			return
+		}
+		seen[v] = true
+		for _, r := range *v.Referrers() {
+			switch x := r.(type) {
+			case *ssa.Phi:
+				visit(x)
+			case ssa.CallInstruction:
+				cal := x.Common().StaticCallee()
+				name := "?"
+				if cal != nil {
+					name = cal.Name()
+				}
+				n++
+				okC := cal != nil && len(x.Common().Args) > 0 && x.Common().Args[0] == v && allowed[name]
+				R.Check(okC, "C06.R4", "tokenizer-call:"+name, "(*Policy).sanitize: tokenizer."+name, sc.c.P.Pos(x.Pos()), "reads the token stream", "the tokenizer is reconfigured or handed on: the delivered text may differ from the input's text (e.g. CDATA sections delivered as text)")
+			case *ssa.DebugRef:
+			default:
+				n++
+				R.Fail("C06.R4", "tokenizer-use:"+fmt.Sprintf("%T", r), "(*Policy).sanitize: use of the tokenizer", sc.c.P.Pos(r.Pos()), "the tokenizer value is stored or passed on")
+			}
+		}
+	}
+	visit(tk)
+	R.Role("C06.R4", "uses of the tokenizer", n, 2)
 }
